@@ -10,7 +10,9 @@ EXPLANATION = (
     "every other context field is stored from the request on all paths before any dispatch site; the oneway snapshot saves and "
     "restores every field (taken in the parent thread, restored before the target runs); error replies build their own "
     "annotation dict; the client assigns the reply's annotations unconditionally after the sequence check on every path to a "
-    "reply-carrying exit; every received message owns a fresh annotations dict. Not decided: what a method observes under real interleavings (thread-locality is the interpreter's)."
+    "reply-carrying exit; every received message owns a fresh annotations dict."
+    "Also decided: context stores count only when left normally (edge-based must-pass); the request's correlation id is adopted exactly on the flag edge; the client clears the response annotations before sending. "
+    "Not decided: what a method observes under real interleavings (thread-locality is the interpreter's)."
 )
 
 CTX = "Pyro5.callcontext.current_context"
